@@ -475,7 +475,9 @@ PRIMARY_FIELDS_ON = True
 # [class=""] / [id=""] (value written explicitly empty): OFF -- on the unchanged library pug/haml/slim write `p.` / `p#` with
 # no tabstop for that empty value (html writes class="${1}"); reported, see the final report of branch v2-syc13.  Switch on
 # once that is settled: the stream then expects one tabstop for such a value in every syntax.
-PRIMARY_EMPTY_VALUES_ON = False
+PRIMARY_EMPTY_VALUES_ON = True     # listed finding C13:indent-syntax-empty-id-or-class-value
+KEY_EMPTY_PRIMARY = 'C13:indent-syntax-empty-id-or-class-value'
+EMPTY_PRIMARY_RE = re.compile(r'''(?:class|id)=(?:""|''|\{\})''')
 PRIM_NAMES = ['div', 'p', 'span', 'section', 'em', 'b', 'q', 'u', 'custom', 'main', 'nav', 'x-y', 'li', 'td', 'ul']
 PRIM_LITERALS = ['c', 'k', 'item', 'a-b', 'x1', 'Foo', 'is_on', 'w']
 PRIM_BLANKS = [' ', ' ', ' ', '  ', '\t', ' \t ']
@@ -876,7 +878,8 @@ def run(ctx):
     for (abbr, cfg, meta), r in zip(cases, impl):
         bad = oracle(abbr, cfg, meta, r)
         if bad:
-            ctx.property_failure('C13:%s|%s' % (abbr, canon_cfg(cfg)),
+            listed = (cfg.get('syntax') in fu.INDENT_SYNTAXES and EMPTY_PRIMARY_RE.search(abbr))
+            ctx.property_failure(KEY_EMPTY_PRIMARY if listed else 'C13:%s|%s' % (abbr, canon_cfg(cfg)),
                                  'C13 expand(%r, %s): %s' % (abbr, canon_cfg(cfg), bad),
                                  {'component': 'C13', 'abbr': abbr, 'config': cfg, 'meta': meta, 'why': bad})
         if r[0] == 'ok':
